@@ -102,6 +102,20 @@ def run_cfg(ctx, p, cfg):
                 keep.append(c)
         r.require(len(keep) == 4 and len(err) == 5, "push-sites", fn=f, detail="keep pushes %d (appender, root ref, logger ref, logger), error pushes %d" % (len(keep), len(err)))
         app_names = None
+
+        def new_name_gate(gates, item, at, strict=True):
+            """the set a name was found new in: true edge of set.insert(item.name), or false edge of set.contains(&item.name) with
+            set.insert(item.name) on the way to `at` (or right behind it, still under that edge)"""
+            for d, labs in gates:
+                if d[1] == INSERT and labs == {True} and (not strict or _names_item(d[2][1], item, "name")):
+                    return _set_id(d[2][0])
+            for d, labs in gates:
+                if d[1] == CONTAINS and labs == {False} and (not strict or _names_item(d[2][1], item, "name")):
+                    for i_ in inserts:
+                        if _set_id(i_.arg(0)) == _set_id(d[2][0]) and (_names_item(i_.arg(1), item, "name") if strict else _same_name(i_.arg(1), d[2][1])) and (f.dominates(i_.block, at) or f.dominates(at, i_.block)) \
+                                and any(strip(si2.discr) == d and {si2.label(v) for v, _ in al2} == {False} for sb2, si2, al2 in f.conditions(i_.block)):
+                            return _set_id(d[2][0])
+            return None
         for c in keep:
             conds = f.conditions(c.block)
             gates = []
@@ -115,13 +129,12 @@ def run_cfg(ctx, p, cfg):
             item = deep_strip(c.arg(1))
             ity = c.t["arg_tys"][1] if len(c.t.get("arg_tys", [])) > 1 else ""
             if ity == APPENDER:
-                ok = any(d[1] == INSERT and labs == {True} and _names_item(d[2][1], item, "name") for d, labs in gates)
-                r.require(ok, "appender-kept-iff-name-new", fn=f, site=c.at, detail="kept only on the true edge of appender_names.insert(appender.name)")
-                for d, labs in gates:
-                    if d[1] == INSERT:
-                        app_names = _set_id(d[2][0])
+                sid = new_name_gate(gates, item, c.block)
+                r.require(sid is not None, "appender-kept-iff-name-new", fn=f, site=c.at, detail="kept only on the true edge of appender_names.insert(appender.name) (or past a negative contains() with the insert on the way)")
+                if sid is not None:
+                    app_names = sid
             elif ity == LOGGER:
-                ok1 = any(d[1] == INSERT and labs == {True} for d, labs in gates)
+                ok1 = new_name_gate(gates, item, c.block, strict=False) is not None
                 ok2 = any(d[1] == nc.callee and labs == {"Ok"} for d, labs in gates)
                 r.require(ok1 and ok2, "logger-kept-iff-new-and-wellformed", fn=f, site=c.at, detail="kept only if logger_names.insert(name) was true and the name check returned Ok (gates: %s)" % [(d[1].rsplit("::", 1)[-1], sorted(map(str, l))) for d, l in gates])
             elif ity == "alloc::string::String":
@@ -131,6 +144,8 @@ def run_cfg(ctx, p, cfg):
                 r.fail("unclassified-keep-push:%s" % common.role(c), fn=f, site=c.at, detail="pushed type %s" % ity)
         # contains() consults the appender-name set (same set object as the appender insert)
         for c in contains:
+            if any(_set_id(i_.arg(0)) == _set_id(c.arg(0)) and _same_name(i_.arg(1), c.arg(1)) for i_ in inserts):
+                continue        # the duplicate test spelled contains() + insert() of the same name on the same set
             r.require(app_names is not None and _set_id(c.arg(0)) == app_names, "contains-on-appender-names:%s" % common.role(c), fn=f, site=c.at, detail="reference checked against the set the appenders were inserted into")
         # order preserving: only push (no insert(0)/sort/reverse/dedup) on the kept lists
         bad = [c.callee for c in f.calls() if (c.callee or "").rsplit("::", 1)[-1] in ("sort", "sort_by", "sort_by_key", "reverse", "dedup", "dedup_by_key", "retain", "swap", "rotate_left") or
@@ -176,13 +191,18 @@ def run_cfg(ctx, p, cfg):
             for sb, si, al in conds:
                 d = strip(si.discr)
                 labs = {si.label(v) for v, _ in al}
-                if d[0] == "call" and d[1] in (INSERT, CONTAINS) and labs == {False}:
-                    on_fail = True
+                dup_test = d[0] == "call" and ((d[1] == INSERT and labs == {False}) or (d[1] == CONTAINS and labs == {True}))     # the name is already in the set
+                missing_test = d[0] == "call" and d[1] == CONTAINS and labs == {False}
+                if dup_test or missing_test:
                     tested = deep_strip(d[2][1])
                     if aggs:
                         payload = deep_strip(dict(aggs[0][3]).get("0"))
-                        want = {INSERT: ("DuplicateAppenderName", "DuplicateLoggerName"), CONTAINS: ("NonexistentAppender",)}[d[1]]
-                        culprit_ok = aggs[0][2] in want and (payload == tested or _names_item(d[2][1], payload, None) or _same_name(tested, payload))
+                        want = ("DuplicateAppenderName", "DuplicateLoggerName") if dup_test else ("NonexistentAppender",)
+                        if aggs[0][2] in want:
+                            on_fail = True
+                            culprit_ok = culprit_ok or payload == tested or _names_item(d[2][1], payload, None) or _same_name(tested, payload)
+                    else:
+                        on_fail = True
                 if d[0] == "discr" and strip(d[1])[0] == "call" and strip(d[1])[1] == nc.callee and labs == {"Err"}:
                     on_fail = True
                     culprit_ok = any(x[0] == "as" and x[2] == "Err" and strip(x[1])[0] == "call" and strip(x[1])[1] == nc.callee for x in walk(a))
